@@ -114,6 +114,15 @@ def make_runner(unit, kind=None, shape=None, other='self', want=None):
         return (ps._d['_parameters'].plist[0] if level == 'param' else ps), info2
 
     def run(ctx, r):
+        # in the reflexivity units ``==`` on defaults / annotation objects is NOT assumed reflexive (NaN-like values):
+        # plain inspect objects are equal to themselves regardless, through the identity shortcut of their __eq__
+        sym.set_nonreflexive(other == 'self' and unit in ('param_eq', 'sig_eq'))
+        try:
+            return run_(ctx, r)
+        finally:
+            sym.set_nonreflexive(False)
+
+    def run_(ctx, r):
         env['r'] = r
         if unit == 'class':
             env['UP'], env['US'] = UP, US
@@ -304,6 +313,25 @@ def replay(env, vc, model):
     info = env['info']
     sig = conc.build_sig(info)
     level = 'param' if unit.startswith('param') else 'sig'
+    if other == 'self' and unit in ('param_eq', 'sig_eq'):
+        # values the model makes unequal to themselves are realised as float('nan')
+        nan = float('nan')
+        selfeq = lambda t: z3.is_true(model.eval(sym.SELFEQ(t), model_completion=True))
+        new = []
+        for sp, rp in zip(info.params, sig.parameters.values()):
+            kw = {}
+            d, a = sp._d['_default'], sp._d['_annotation']
+            if rp.default is not rp.empty and not selfeq(d.val):
+                kw['default'] = nan
+            if rp.annotation is not rp.empty and not selfeq(sp._d['upgraded_annotation'].denotes):
+                kw['annotation'] = nan
+                kw['upgraded_annotation'] = _signatures.UpgradedAnnotation.preevaluated(nan)
+            new.append(rp.replace(**kw) if kw else rp)
+        kw = {}
+        ra = info.sig._d['upgraded_return_annotation']
+        if sig.return_annotation is not sig.empty and not selfeq(ra.denotes):
+            kw = dict(return_annotation=nan, upgraded_return_annotation=_signatures.UpgradedAnnotation.preevaluated(nan))
+        sig = sig.replace(parameters=new, **kw)
     me = list(sig.parameters.values())[0] if level == 'param' else sig
     if unit in ('param_eq', 'sig_eq'):
         plain_sig = inspect.signature(list(sig.sources['+depths'])[0])
